@@ -251,7 +251,9 @@ func TestC22(t *testing.T) {
 	if rec.Known("FG3") {
 		rec.ReportKnown("FG3", fg3Repro())
 	}
-	sweepMapCells(t, rec)
+	if evid.Shard() == 0 { // the finite cell space is enumerated once, not once per shard
+		sweepMapCells(t, rec)
+	}
 
 	cfg := storgen.MapGenConfig{MaxExecs: 25, MaxOps: 5}
 	rapid.Check(t, func(rt *rapid.T) {
